@@ -393,7 +393,7 @@ pub fn decls(seed: u64, thorough: bool) -> Vec<Decl> {
     // neighbour or moved across a custom function); every order of {trim, case, with = f} for functions
     // that commute with neither, and every sub-list
     for (ci, case) in [SanSpec::Lower, SanSpec::Upper].into_iter().enumerate() {
-        for (fi, fname) in ["s_appendx", "s_padsp", "s_prepz", "s_trunc5", "s_repl"].into_iter().enumerate() {
+        for (fi, fname) in ["s_appendx", "s_padsp", "s_prepz", "s_trunc5", "s_repl", "s_at2sp", "s_bang2z"].into_iter().enumerate() {
             let pool = [SanSpec::Trim, case.clone(), SanSpec::With(FnRef::new(fname, all_forms[(ci + fi) % all_forms.len()]))];
             for (pi, perm) in crate::catalogue::permutations(3).iter().enumerate() {
                 for take in 2..=3 {
